@@ -24,6 +24,12 @@ import (
 // variant := j2i | j2l | jni | jnl | jnf | tsi | tsl | tsf | dsi:W | dsl:W | dsf:W   (W = fields per source, "2,1,3")
 // obs := "ok <rows>" | "err <class> <rows delivered before the error>"   (format: lean/ShpanVerif/Drive/C09.lean)
 
+// c09Time maps a key to its timestamp: neighbouring keys are 250 microseconds apart (inside one millisecond, so a
+// comparison at a coarser granularity than the instant itself confuses them), around 2024-03-01T12:00Z.
+const c09Base = int64(1709294400) * 1000000000
+
+func c09Time(k int64) time.Time { return time.Unix(0, c09Base+k*250000) }
+
 func init() {
 	Register("C09", Family{Gen: genC09, Exec: execC09})
 }
@@ -161,7 +167,7 @@ func execC09Inner(ctx context.Context, caseText string) string {
 		for i, l := range ins {
 			recs := make([]timeseries.TsRecord[int], len(l))
 			for j, e := range l {
-				recs[j] = timeseries.TsRecord[int]{Timestamp: time.Unix(e.K, 0), Value: e.T}
+				recs[j] = timeseries.TsRecord[int]{Timestamp: c09Time(e.K), Value: e.T}
 			}
 			tss[i] = stream.Just(recs...)
 		}
@@ -229,7 +235,7 @@ func execC09Inner(ctx context.Context, caseText string) string {
 				for j := 0; j < w; j++ {
 					backing[r*w+j] = int64(8*e.T + j)
 				}
-				recs[r] = timeseries.TsRecord[[]any]{Timestamp: time.Unix(e.K, 0), Value: backing[r*w : (r+1)*w]}
+				recs[r] = timeseries.TsRecord[[]any]{Timestamp: c09Time(e.K), Value: backing[r*w : (r+1)*w]}
 			}
 			ds, err := report.NewStaticDatasource(metas, stream.Just(recs...))
 			if err != nil {
